@@ -105,6 +105,9 @@ def base_grid(tier, monitors, gregory_only=False, meek_only=False, symtie=False,
                 continue
             for seats in ((2, 3) if quick else (1, 2, 3)):
                 jobs.append(job(rule, opts, 4, seats, 1 if quick else 2, 7 if quick else 8, monitors, B, symtie=symtie, weight=2))
+        if want('scotland') and not meek_only:
+            # three-way ties whose earlier stages differ (rules 49/51) need four candidates and transfers
+            jobs.append(job('scotland', {}, 4, 2, 2, 5 if quick else 6, monitors, B, symtie=symtie, weight=4))
         if want('qpq') and not gregory_only and not meek_only:
             # the restart after an exclusion (elected -> hopeful) is only visible with four candidates and transfers
             jobs.append(job('qpq', {}, 4, 2, 2, 4 if quick else 5, monitors, B, symtie=symtie, weight=6))
